@@ -1,21 +1,26 @@
 package main
 
 // Stall guard for the loader: "any configuration it does not accept is reported as an error value, never as a crash" -
-// a loader that never returns is a crash-class failure. run.ParseConfigFile runs on its own goroutine (locked to its
-// own OS thread); the case waits for it with a patience counted in ticks of this process's own 5 ms clock (a starved
-// process does not tick either) and corroborated by the CPU time the loader's thread has really consumed. No wall-clock
-// verdict: on a loaded machine the verdict comes later, never earlier. The 5-minute stalled-case watchdog of seq stays
-// behind it.
+// a loader that never returns is a crash-class failure, and a goroutine that never returns cannot be stopped. Every
+// file is therefore first given to run.ParseConfigFile in a helper process (this binary, started once per worker with
+// C16_LOADER_CHILD=1, fed file names over a pipe). Only when the helper has answered is the file loaded in-process (the
+// loader is deterministic). The worker waits for the answer with a patience counted in ticks of ITS OWN 5 ms clock (a
+// starved process does not tick either), corroborated by the CPU time the helper has really consumed since the request:
+// no wall-clock verdict - on a loaded machine the verdict comes later, never earlier. When the patience runs out the
+// helper is asked where its loader goroutine is (goroutine dump), then killed; the next case gets a fresh helper. The
+// 5-minute stalled-case watchdog of seq stays behind all this.
 
 import (
+	"bufio"
 	"fmt"
+	"io"
 	"os"
+	"os/exec"
 	"runtime"
 	"strconv"
 	"strings"
 	"sync"
 	"sync/atomic"
-	"syscall"
 	"time"
 
 	"github.com/relex/slog-agent/base"
@@ -28,11 +33,13 @@ var (
 )
 
 const (
-	// a load takes 1-5 ms of CPU. Verdict "does not return": more than patienceTicks ticks have passed AND the loader's
-	// thread has burnt at least stallCPU of CPU time (a loop), or more than blockedTicks ticks have passed at all (blocked).
+	// a load takes about 1 ms of CPU. Verdict "does not return": more than patienceTicks ticks have passed AND the helper
+	// has burnt at least stallCPU of CPU time on the request (a loop), or more than blockedTicks ticks have passed at all
+	// (blocked without using CPU).
 	patienceTicks = 2000 // x 5 ms: >= 10 s of this process's own clock
 	blockedTicks  = 10 * patienceTicks
 	stallCPU      = 2 * time.Second
+	loaderChild   = "C16_LOADER_CHILD"
 )
 
 func startTicker() {
@@ -55,25 +62,6 @@ type loadResult struct {
 	detail string
 }
 
-// threadCPU returns the CPU time consumed so far by one thread of this process (utime+stime of /proc/self/task/<tid>/stat).
-func threadCPU(tid int) time.Duration {
-	data, err := os.ReadFile(fmt.Sprintf("/proc/self/task/%d/stat", tid))
-	if err != nil {
-		return 0
-	}
-	s := string(data)
-	if i := strings.LastIndexByte(s, ')'); i >= 0 { // skip "pid (comm)"
-		s = s[i+1:]
-	}
-	f := strings.Fields(s)
-	if len(f) < 13 {
-		return 0
-	}
-	ut, _ := strconv.ParseInt(f[11], 10, 64) // fields 14 and 15 of the line
-	st, _ := strconv.ParseInt(f[12], 10, 64)
-	return time.Duration(ut+st) * (time.Second / 100) // USER_HZ is 100 on Linux
-}
-
 // loaderFrame is the function the loader goroutine is found by in a goroutine dump.
 func loaderFrame(path string, res *loadResult) {
 	res.site, res.detail = catch(func() {
@@ -81,45 +69,36 @@ func loaderFrame(path string, res *loadResult) {
 	})
 }
 
-// guardedLoad runs the real loader entry point. returned=false: it did not come back; stuckAt names the slog-agent
-// function it was executing when the patience ran out.
-func guardedLoad(path string) (res loadResult, returned bool, stuckAt string, waited string) {
-	startTicker()
-	done := make(chan *loadResult, 1)
-	var tid atomic.Int64
-	go func() {
-		runtime.LockOSThread()
-		tid.Store(int64(syscall.Gettid()))
-		r := &loadResult{}
-		loaderFrame(path, r)
-		runtime.UnlockOSThread()
-		done <- r
-	}()
-	start := ticks.Load()
-	poll := time.NewTimer(time.Millisecond)
-	defer poll.Stop()
+// ---- helper process side
+
+// loaderChildMain: "L <path>" starts a load on its own goroutine and answers "done" when it returns (value or panic);
+// "?" answers "stuck <innermost slog-agent function of the loader goroutine>" and ends the process.
+func loaderChildMain() {
+	lowerLimits()
+	in := bufio.NewReader(os.Stdin)
+	var out sync.Mutex
+	say := func(s string) {
+		out.Lock()
+		fmt.Fprintln(os.Stdout, s)
+		out.Unlock()
+	}
 	for {
-		select {
-		case r := <-done:
-			return *r, true, "", ""
-		case <-poll.C:
+		line, err := in.ReadString('\n')
+		if err != nil {
+			os.Exit(0)
 		}
-		elapsed := ticks.Load() - start
-		if elapsed > patienceTicks {
-			cpu := threadCPU(int(tid.Load()))
-			if cpu >= stallCPU || elapsed > blockedTicks {
-				stuckAt = stuckFrame()
-				// the goroutine cannot be stopped: give the thread the lowest priority and the rest of the process one
-				// more P, so that the following cases of this worker are not slowed down by the spinning loader
-				syscall.Setpriority(syscall.PRIO_PROCESS, int(tid.Load()), 19)
-				runtime.GOMAXPROCS(runtime.GOMAXPROCS(0) + 1)
-				return loadResult{}, false, stuckAt, fmt.Sprintf("%d ticks of the process's own 5 ms clock, %v of CPU time on the loader's thread", elapsed, cpu)
-			}
-		}
-		if elapsed < 4 {
-			poll.Reset(time.Millisecond)
-		} else {
-			poll.Reset(20 * time.Millisecond)
+		line = strings.TrimSuffix(line, "\n")
+		switch {
+		case strings.HasPrefix(line, "L "):
+			path := line[2:]
+			go func() {
+				var r loadResult
+				loaderFrame(path, &r)
+				say("done")
+			}()
+		case line == "?":
+			say("stuck " + stuckFrame())
+			os.Exit(0)
 		}
 	}
 }
@@ -151,4 +130,158 @@ func stuckFrame() string {
 		}
 	}
 	return "unknown"
+}
+
+// ---- worker side
+
+type loaderProc struct {
+	cmd   *exec.Cmd
+	in    io.WriteCloser
+	lines chan string
+}
+
+var helper *loaderProc
+
+func startHelper() (*loaderProc, error) {
+	cmd := exec.Command(os.Args[0])
+	cmd.Env = append(os.Environ(), loaderChild+"=1", "GOMAXPROCS=2")
+	in, err := cmd.StdinPipe()
+	if err != nil {
+		return nil, err
+	}
+	out, err := cmd.StdoutPipe()
+	if err != nil {
+		return nil, err
+	}
+	if err := cmd.Start(); err != nil {
+		return nil, err
+	}
+	p := &loaderProc{cmd: cmd, in: in, lines: make(chan string, 4)}
+	go func() {
+		sc := bufio.NewScanner(out)
+		for sc.Scan() {
+			p.lines <- sc.Text()
+		}
+		close(p.lines)
+	}()
+	return p, nil
+}
+
+func (p *loaderProc) kill() {
+	p.in.Close()
+	p.cmd.Process.Kill()
+	p.cmd.Wait()
+}
+
+func stopHelper() {
+	if helper != nil {
+		helper.kill()
+		helper = nil
+	}
+}
+
+// processCPU returns the CPU time consumed so far by a process (utime+stime of /proc/<pid>/stat, all threads).
+func processCPU(pid int) time.Duration {
+	data, err := os.ReadFile(fmt.Sprintf("/proc/%d/stat", pid))
+	if err != nil {
+		return 0
+	}
+	s := string(data)
+	if i := strings.LastIndexByte(s, ')'); i >= 0 { // skip "pid (comm)"
+		s = s[i+1:]
+	}
+	f := strings.Fields(s)
+	if len(f) < 13 {
+		return 0
+	}
+	ut, _ := strconv.ParseInt(f[11], 10, 64) // fields 14 and 15 of the line
+	st, _ := strconv.ParseInt(f[12], 10, 64)
+	return time.Duration(ut+st) * (time.Second / 100) // USER_HZ is 100 on Linux
+}
+
+// guardedLoad runs the real loader entry point. returned=false: it did not come back; stuckAt names the slog-agent
+// function it was executing when the patience ran out.
+func guardedLoad(path string) (res loadResult, returned bool, stuckAt string, waited string) {
+	startTicker()
+	for attempt := 0; ; attempt++ {
+		if helper == nil {
+			h, err := startHelper()
+			if err != nil {
+				panic("harness: cannot start the loader helper process: " + err.Error())
+			}
+			helper = h
+		}
+		cpu0 := processCPU(helper.cmd.Process.Pid)
+		if _, err := fmt.Fprintf(helper.in, "L %s\n", path); err != nil {
+			stopHelper()
+			if attempt < 2 {
+				continue
+			}
+			panic("harness: the loader helper process does not take requests: " + err.Error())
+		}
+		start := ticks.Load()
+		poll := time.NewTimer(20 * time.Millisecond)
+		helperDied := false
+	wait:
+		for {
+			select {
+			case line, ok := <-helper.lines:
+				if !ok {
+					helperDied = true // e.g. a fatal error of the runtime inside the loader (stack overflow, out of memory)
+					break wait
+				}
+				if line == "done" {
+					poll.Stop()
+					var r loadResult
+					loaderFrame(path, &r)
+					return r, true, "", ""
+				}
+			case <-poll.C:
+				poll.Reset(20 * time.Millisecond)
+			}
+			elapsed := ticks.Load() - start
+			if elapsed <= patienceTicks {
+				continue
+			}
+			cpu := processCPU(helper.cmd.Process.Pid) - cpu0
+			if cpu < stallCPU && elapsed <= blockedTicks {
+				continue
+			}
+			poll.Stop()
+			// ask where it is, then end it
+			stuckAt = "unknown"
+			fmt.Fprintf(helper.in, "?\n")
+			askedAt := ticks.Load()
+		ask:
+			for ticks.Load()-askedAt <= patienceTicks {
+				select {
+				case line, ok := <-helper.lines:
+					if !ok {
+						break ask
+					}
+					if strings.HasPrefix(line, "stuck ") {
+						stuckAt = strings.TrimPrefix(line, "stuck ")
+						break ask
+					}
+					if line == "done" { // it came back after all, just now: not a stall
+						stopHelper()
+						var r loadResult
+						loaderFrame(path, &r)
+						return r, true, "", ""
+					}
+				case <-time.After(20 * time.Millisecond):
+				}
+			}
+			stopHelper()
+			return loadResult{}, false, stuckAt, fmt.Sprintf("%d ticks of the process's own 5 ms clock, %v of CPU time used by the loading process meanwhile", elapsed, cpu)
+		}
+		poll.Stop()
+		if helperDied {
+			stopHelper()
+			// the helper died inside the load: run it here, so that the death is attributed to this case by seq
+			var r loadResult
+			loaderFrame(path, &r)
+			return r, true, "", ""
+		}
+	}
 }
